@@ -152,7 +152,7 @@ def run(res, tier):
                         res.ob('DEFAULT-OUTSIDE-WINDOW', where, '%s::FastClear drops all items: internal caller Clear() has reset them' % inst, ok and bool(callers), how='; '.join(why), function=f.q, key=key,
                                message='Queue<%s>::Clear() can reach FastClear() without resetting the items: the old items stay alive in the slots and are exposed by a later EnsureSize(n, true)' % label)
                         continue
-                    if short in ('ReleaseRawDataArray', 'AdoptRawDataArray', 'SwapContentsAux', 'operator='):
+                    if short in ('ReleaseRawDataArray', 'AdoptRawDataArray', 'operator='):
                         res.ob('DEFAULT-OUTSIDE-WINDOW', where, '%s::%s hands the whole array over (no slot stays behind)' % (inst, short), True, nontrivial=False, how='frozen: array ownership transfer', function=f.q)
                         continue
                     ok, path = P.must_follow(f, w, stores, escapes=infeasible) if stores else (False, None)
@@ -396,11 +396,101 @@ def run(res, tier):
                            'tail lies outside the array), so the next AddTail() stores its item in the wrong slot and a later one overwrites the head' % (f.q, te.text(50), hw['ch'][1].text(30)))
     if n_ht < 1:
         raise AnalysisBroken('HEAD-TAIL: no block assigning both _headIndex and _tailIndex found')
+    # ---- ABANDON-INLINE: when an owning-item Queue stops using its inline buffer (its _queue is pointed somewhere else), the inline slots are reset first
+    # (they are outside every later item window, and EnsureSizeAux re-adopts the inline buffer on the assumption that its slots hold default items)
+    res.rule('ABANDON-INLINE', 'per owning-item instantiation: every statement that points this->_queue at something other than _smallQueue is reached only on paths where `_queue == _smallQueue` was found '
+                               'false, or after the inline slots were reset (a default-store loop over _smallQueue / the items of *this, or Clear())', floor=3)
+    n_ai = 0
+    for f in sorted(funcs, key=lambda f: f.line):
+        short = f.q.split('::')[-1]
+        if short in ('(ctor)', '(dtor)'):
+            continue
+        sites = []
+        for w in f.walk():
+            if w['k'] == 'BinaryOperator' and w.get('op') == '=':
+                l_ = A.strip_casts(w['ch'][0])
+                if l_['k'] == 'MemberExpr' and l_.get('n') == '_queue' and A.is_this_member(l_):
+                    r_ = A.strip_casts(w['ch'][1])
+                    if not (r_['k'] == 'MemberExpr' and r_.get('n') == '_smallQueue' and A.is_this_member(r_)):
+                        sites.append(w)
+            elif w.is_call() and (w.get('q') or '').split('::')[-1] in ('muscleSwap', 'swap'):
+                if any(A.strip_casts(a)['k'] == 'MemberExpr' and A.strip_casts(a).get('n') == '_queue' and A.is_this_member(A.strip_casts(a)) for a in w.args()):
+                    sites.append(w)
+        if not sites:
+            continue
+        esc = const_edges(f, fx, True) | not_small_edges(f)
+        ev = store_loops(f, inline_resets(f)) + [c for c in f.walk() if c['k'] == 'CXXMemberCallExpr' and (c.get('q') or '').endswith('::Clear')
+                                                  and (c.receiver() is None or A.strip_casts(c.receiver())['k'] == 'CXXThisExpr')]
+        for w in sites:
+            n_ai += 1
+            ok = P.must_precede(f, ev, w, esc)
+            res.ob('ABANDON-INLINE', f.where(w), '%s: `%s` leaves no item behind in the inline buffer' % (short, w.text(40)), ok, function=f.q,
+                   key='ABANDON-INLINE|%s|%s' % (f.q.split('<')[0], A.strip_casts(w['ch'][1]).text(30) if w['k'] == 'BinaryOperator' else 'swap'),
+                   how='reset event(s) at line(s) %s; %d exempting edge(s)' % (sorted(set(e.get('l') for e in ev)), len(esc)),
+                   message='%s executes `%s` on a path where _queue can still be the inline buffer _smallQueue and its slots were not reset: for an item type that has no move assignment (or whose move '
+                           'leaves the source intact) the old items stay in the unused inline slots, and when the Queue later returns to its inline buffer (Clear(true) + EnsureSize(n, true), or '
+                           'ShrinkToFit()) they are exposed as if they were default items' % (f.q, w.text(40)))
+    if n_ai < 3:
+        raise AnalysisBroken('ABANDON-INLINE: only %d statements re-pointing _queue found' % n_ai)
     res.explanation = ('Static decision of one structural invariant of Queue, per forced instantiation: IsPerItemClearNecessary() is folded to its per-type constant and the CFG is pruned accordingly; for owning item types '
                        'every reachable decrease of _itemCount is followed by a store of the default item into the vacated slot (Clear() resets all slots before FastClear()); for trivial item types the two places '
                        'where EnsureSizeAux raises _itemCount over unassigned slots are preceded by default-store loops. Equivalence with an ideal deque is not decided.')
     res.assumptions = ['new[] value-initialises non-trivial item types through their default constructor']
     res.not_decided = ['all other Queue operations (index translation, insert/remove semantics, sorting, rotation, copy/move)', 'refinement of an ideal sequence over operation histories']
+
+
+def not_small_edges(f):
+    """edges on which `_queue == _smallQueue` was found false (directly, or through a local bool initialised with that comparison)"""
+    def is_small_test(n):
+        """+1 if n says _queue == _smallQueue, -1 if it says !=, 0 otherwise"""
+        for (l_, op_, r_) in A.rel_forms(n, True):
+            if op_ in ('==', '!=') and l_['k'] == 'MemberExpr' and r_['k'] == 'MemberExpr' and set((l_.get('n'), r_.get('n'))) == set(('_queue', '_smallQueue')) \
+                    and A.is_this_member(l_) and A.is_this_member(r_):
+                return 1 if op_ == '==' else -1
+        return 0
+    flags = {}
+    for v in f.walk():
+        if v['k'] == 'VarDecl' and v['ch'] and v.get('d') is not None:
+            t = is_small_test(A.strip_casts(v['ch'][0]))
+            if t:
+                flags[v['d']] = t
+    out = set()
+    for blk in f.blocks.values():
+        if blk.cond is None or blk.cond not in f.nodes or len(blk.succ) != 2:
+            continue
+        n, pol = P.strip_not(f.nodes[blk.cond])
+        t = is_small_test(n)
+        if not t and n['k'] == 'DeclRefExpr' and n.get('d') in flags:
+            t = flags[n['d']]
+        if t:
+            small_when_true = (t == 1) == pol
+            out.add((blk.b, 1 if small_when_true else 0))     # the edge on which the queue is NOT the inline buffer
+    return out
+
+
+def inline_resets(f):
+    """default stores into the inline buffer or into the items of *this: _smallQueue[i] = default, _queue[i] = default, (*this)[i] = default"""
+    out = []
+    for n in default_stores(f):
+        lhs = n['ch'][0] if n['k'] == 'BinaryOperator' else n['ch'][1]
+        base = A.strip_casts(A.strip_casts(lhs)['ch'][0])
+        if base['k'] == 'MemberExpr' and base.get('n') in ('_smallQueue', '_queue') and A.is_this_member(base):
+            out.append(n)
+    drefs = set(v['d'] for v in f.walk() if v['k'] == 'VarDecl' and v['ch'] and any((x.get('q') or '').endswith('::GetDefaultItem') for x in v['ch'][0].walk() if x.is_call()))
+    for n in f.walk():
+        # (*this)[i] = default   (item type with a user-provided or built-in assignment)
+        lhs = rhs = None
+        if n['k'] == 'BinaryOperator' and n.get('op') == '=':
+            lhs, rhs = n['ch'][0], n['ch'][1]
+        elif n['k'] == 'CXXOperatorCallExpr' and (n.get('q') or '').endswith('::operator=') and len(n['ch']) >= 3:
+            lhs, rhs = n['ch'][1], n['ch'][2]
+        if lhs is None:
+            continue
+        l_ = A.strip_casts(lhs)
+        if l_['k'] == 'CXXOperatorCallExpr' and (l_.get('q') or '').endswith('Queue::operator[]') and len(l_['ch']) > 1 and any(x['k'] == 'CXXThisExpr' for x in l_['ch'][1].walk()):
+            if any((x.get('q') or '').endswith('::GetDefaultItem') for x in rhs.walk() if x.is_call()) or any(x['k'] == 'DeclRefExpr' and x.get('d') in drefs for x in rhs.walk()):
+                out.append(n)
+    return out
 
 
 def items_absent_edges(g):
